@@ -175,13 +175,53 @@ def classes_of(cls, din, out):
             classes_of(sub, n, out)
 
 
+def make_dyn(req):
+    from gv import dyn
+
+    class Dyn2(dyn.Dyn):
+        """dyn.Dyn with the recursion bound also applied to message-valued maps (recursive map values never terminate otherwise)."""
+
+        def _set(self, r, m, f, depth):
+            is_map = f.type == FD.TYPE_MESSAGE and f.message_type.GetOptions().map_entry
+            if is_map and depth >= 3 and f.message_type.fields_by_name["value"].type == FD.TYPE_MESSAGE:
+                return
+            return super()._set(r, m, f, depth)
+
+        def random(self, r, fqn, depth=0, fill=0.7, skip=()):
+            """Well-known types get values json_format can print (also inside repeated fields and map values)."""
+            fqn = fqn.lstrip(".")
+            if fqn.startswith("google.protobuf."):
+                m = self.cls(fqn)()
+                short = fqn[len("google.protobuf."):]
+                if short == "Timestamp":
+                    m.seconds, m.nanos = r.choice([0, 1, 1700000000]), r.choice([0, 5000000])
+                elif short == "Duration":
+                    m.seconds, m.nanos = r.choice([0, 1, 30]), r.choice([0, 250000000])
+                elif short == "FieldMask":
+                    m.paths.extend(r.sample(["name", "display_name", "a.b_c"], r.randint(0, 2)))
+                elif short == "Struct":
+                    m["k"] = r.choice(["v", 1.5, True])
+                elif short == "Value":
+                    m.string_value = r.choice(["", "v"])
+                elif short == "ListValue":
+                    m.values.add().number_value = 1.0
+                elif short == "Any":
+                    m.type_url = "type.googleapis.com/google.protobuf.Empty"
+                else:
+                    return super().random(r, fqn, depth, fill, skip)
+                return m
+            return super().random(r, fqn, depth, fill, skip)
+
+    return Dyn2(req)
+
+
 def main():
     q = json.load(sys.stdin)
     sys.path.insert(0, q["root"])
     from gv import env, dyn
     req = plugin_pb2.CodeGeneratorRequest()
     req.ParseFromString(base64.b64decode(q["request_b64"]))
-    d = dyn.Dyn(req)
+    d = make_dyn(req)
     out = {"import": {"ok": True, "error": ""}, "modules": {}, "failures": [], "stats": {}}
     orc = Oracle(q["reserved"])
     pkg = q["package"]
